@@ -18,6 +18,8 @@ func init() {
 			// the per-block check the reader compares is the little-endian digest of the specification
 			ruleCheckEncoding(c, r, "")
 			ruleWriterTo(c, r, "")
+			ruleReader2ChunkEOF(c, r, "")
+			ruleBlockSource(c, r, "")
 			// members of a chain share nothing but the source: no package-level state in the reader
 			ruleGlobals(c, r, "")
 			ruleNondeterminism(c, r, "")
